@@ -429,6 +429,23 @@ def resolveFields : List SetShape → List ClientVal → List ClientVal
   | _, _ => []
 end
 
+mutual
+/-- The same decoded set with the runtime signer / writable flags of every account replaced
+(`g` chooses the new flags): "the infos supplied for the slots carry other privileges". -/
+def reflag (g : Acct → Bool × Bool) : SetShape → SetVal → SetVal
+  | .single .., .acct a => .acct { key := a.key, signer := (g a).1, writable := (g a).2 }
+  | .opt s, .present v => .present (reflag g s v)
+  | .vec s, .many vs => .many (vs.map (reflag g s))
+  | .arr _ s, .many vs => .many (vs.map (reflag g s))
+  | .rest s, .many vs => .many (vs.map (reflag g s))
+  | .boxed s, v => reflag g s v
+  | .struct fs, .many vs => .many (reflagFields g fs vs)
+  | _, v => v
+def reflagFields (g : Acct → Bool × Bool) : List SetShape → List SetVal → List SetVal
+  | s :: fs, v :: vs => reflag g s v :: reflagFields g fs vs
+  | _, vs => vs
+end
+
 /-! ## Well-formedness: which (shape, decode argument, client value) triples the round trip speaks about -/
 
 mutual
